@@ -63,4 +63,10 @@ CLAIMED = {
               "paged reads on one handle with generated page-size sequences are checked for permutation, no (empty,nil), EOF exactly at the end and n<=0 semantics. Sampled exploration."),
         note="directories are not mutated between pages; after a mid-way n<=0 call only error-free completion is asserted (the statement pins nothing more)",
     ),
+    "C17": dict(
+        technique="property-based testing with rapid; differential oracle for ErrClosed = closed *os.File twin; invariant oracles for sibling independence and for 'old name stays gone'",
+        text=("On 7 subjects: every method in every order after Close (non-nil error, no panic, ErrClosed where os.File says so); generated action sequences on one handle while a sibling's offset and validity are compared with an os twin; "
+              "remove/rename/RemoveAll followed by mutations through a previously opened handle with Stat(old)/listing checked after each. Sampled exploration."),
+        note="methods a handle never had (e.g. Write on a read-only keyvalue handle) are exempt from the ErrClosed requirement (the helper answers ErrNotImplemented); sibling contents are not compared over a plain Store (snapshot copies by design)",
+    ),
 }
